@@ -31,4 +31,81 @@ OffsetAgreesAt(a, b, M, W) ==
 
 (* Offset depends on (a - b) mod M and on the order of a and b only *)
 Add(a, k, M) == (a + k) % M
+
+(***************************************************************************)
+(* ---- appended for C09 (MCSeq.tla, SeqTrace.tla); nothing above is       *)
+(* changed.  Per-pair lemmas about Offset; MCSeq quantifies them.          *)
+(*                                                                         *)
+(* C09: "Ordering and distance of two sequence numbers agree with true     *)
+(* modular distance for every distance the configured windows allow."      *)
+(***************************************************************************)
+SeqSign(x) == IF x < 0 THEN -1 ELSE IF x > 0 THEN 1 ELSE 0
+
+(* the implementation's order (Ord for SeqNr): sign of the offset *)
+SeqCmp(a, b, M, W) == SeqSign(Offset(a, b, M, W))
+SeqSubK(a, k, M) == (a - k) % M
+
+(* Offset as a function of d = (a - b) % M and lt = (a < b) only: the value *)
+(* at the representative pair (d, 0) resp. (0, M - d).  (d = 0 with lt is   *)
+(* impossible; padded with 0.)                                              *)
+OffsetRep(d, lt, M, W) ==
+    IF lt THEN (IF d = 0 THEN 0 ELSE Offset(0, M - d, M, W))
+          ELSE Offset(d, 0, M, W)
+
+(* The lemmas are stated on VALUES first (o = Offset(a, b), o2 = Offset(b, a), *)
+(* t = Dist(a, b), r = OffsetRep(..)) so that MCSeq can evaluate each function *)
+(* once per pair; the ...At forms below are the same bodies on a pair.         *)
+
+(* OffsetAgreesAt (above) on values *)
+L_OffsetAgrees(o, t, W) == Abs(t) <= W => o = t
+
+(* structural lemma: Offset depends on (a - b) mod M and on a < b only *)
+L_DependsOnDLt(o, r) == o = r
+
+(* What Offset is, everywhere (needs 2 * W < M): the modular distance when   *)
+(* that is within the tolerance, and otherwise the PLAIN INTEGER difference  *)
+(* a - b - which is the modular distance only if no wrap lies between a and  *)
+(* b (|a - b| < M/2), and is off by +-M (wrong sign!) if one does.           *)
+L_ClosedForm(a, b, o, t, W) == o = (IF Abs(t) <= W THEN t ELSE a - b)
+
+(* properties the code relies on *)
+L_Antisym(o, o2) == o = -o2 /\ SeqSign(o) = -SeqSign(o2)
+L_ZeroIffEqual(a, b, o) == (o = 0) <=> (a = b)
+(* within the tolerance the implementation's "<" is the modular "<" *)
+L_OrdAgrees(o, t, W) == Abs(t) <= W => SeqSign(o) = SeqSign(t)
+
+(* the NEGATIVE fact: beyond the tolerance the order is the plain integer   *)
+(* order of the two 16-bit values ...                                       *)
+L_OrdIsPlainBeyond(a, b, o, t, W) ==
+    Abs(t) > W => (o = a - b /\ SeqSign(o) = SeqSign(a - b))
+(* ... which is the WRONG order whenever the wrap lies between them          *)
+L_OrdInvertedAcrossWrap(a, b, o, t, M, W) ==
+    (Abs(t) > W /\ 2 * Abs(a - b) > M) =>
+        (o = t + (IF a > b THEN M ELSE -M) /\ SeqSign(o) = -SeqSign(t))
+
+OffsetDependsOnDLtAt(a, b, M, W) ==
+    L_DependsOnDLt(Offset(a, b, M, W), OffsetRep((a - b) % M, a < b, M, W))
+OffsetClosedFormAt(a, b, M, W) == L_ClosedForm(a, b, Offset(a, b, M, W), Dist(a, b, M), W)
+OffsetAntisymAt(a, b, M, W) == L_Antisym(Offset(a, b, M, W), Offset(b, a, M, W))
+OffsetZeroIffEqualAt(a, b, M, W) == L_ZeroIffEqual(a, b, Offset(a, b, M, W))
+OrdAgreesAt(a, b, M, W) == L_OrdAgrees(Offset(a, b, M, W), Dist(a, b, M), W)
+OrdIsPlainBeyondAt(a, b, M, W) == L_OrdIsPlainBeyond(a, b, Offset(a, b, M, W), Dist(a, b, M), W)
+OrdInvertedAcrossWrapAt(a, b, M, W) ==
+    L_OrdInvertedAcrossWrap(a, b, Offset(a, b, M, W), Dist(a, b, M), M, W)
+
+(* a pair on which the implementation's order contradicts the modular order *)
+OrdWrongAt(a, b, M, W) ==
+    /\ 2 * Abs(Dist(a, b, M)) < M
+    /\ SeqCmp(a, b, M, W) # SeqSign(Dist(a, b, M))
+
+(* three numbers within one window of W are ordered consistently            *)
+OrdTransitiveAt(a, b, c, M, W) ==
+    (/\ Abs(Dist(a, b, M)) <= W /\ Abs(Dist(b, c, M)) <= W /\ Abs(Dist(a, c, M)) <= W
+     /\ SeqCmp(a, b, M, W) < 0 /\ SeqCmp(b, c, M, W) < 0) => SeqCmp(a, c, M, W) < 0
+
+(* the walk of SeqTrace: k steps forward/backward and the offset to where   *)
+(* it started is k again as long as k is within the tolerance               *)
+AddThenOffsetAt(a, k, M, W) ==
+    k <= W => /\ Offset(Add(a, k, M), a, M, W) = k
+              /\ Offset(SeqSubK(a, k, M), a, M, W) = -k
 =============================================================================
